@@ -72,6 +72,7 @@ package c12
 import (
 	"fmt"
 	"runtime/debug"
+	"sort"
 	"strings"
 	"testing"
 
@@ -191,6 +192,10 @@ type verdict struct {
 	Class      string
 	Nontrivial bool
 	Classes    []string
+	// reads with lone priming sites (class "mixed")
+	Lone     int  // number of lone sites
+	Assigned int  // determined amplicons the oracle assigns to a sample
+	Reopened bool // a lone opening site is immediately followed by the opening site of a determined amplicon
 }
 
 // judge applies the oracles to the records of one read (one orientation).
@@ -204,14 +209,17 @@ func judge(sh Sheet, ms []markerM, rd Read, recs []outRec) (verdict, error) {
 			return v, fmt.Errorf("safety: record %v: %v", r, err)
 		}
 	}
-	class, amps, hits := classify(ms, rd)
+	class, amps, hits, lone := classifyLone(ms, rd)
 	v.Class = class
 	v.Classes = append(v.Classes, "sites:"+class)
 	if class == "other" {
 		return v, nil
 	}
 	if err := constructive(sh, ms, rd, class, amps, recs); err != nil {
-		return v, fmt.Errorf("constructive (priming sites by brute force %v): %v\n records: %s", hits, err, recsString(recs))
+		return v, fmt.Errorf("constructive (priming sites by brute force %v, class %s): %v\n records: %s", hits, class, err, recsString(recs))
+	}
+	if class == "mixed" {
+		v.Classes = append(v.Classes, mixedClasses(hits, lone, len(amps), &v)...)
 	}
 	if len(amps) > 1 {
 		v.Classes = append(v.Classes, "chimera_determined")
@@ -232,6 +240,7 @@ func judge(sh Sheet, ms []markerM, rd Read, recs []outRec) (verdict, error) {
 		row, st := identify(m, a.FTag, a.RTag)
 		switch {
 		case st == idAssigned:
+			v.Assigned++
 			v.Classes = append(v.Classes, "expected:assigned")
 			w := sh.Rows[row]
 			if strings.ToLower(w.FTag) != a.FTag || strings.ToLower(w.RTag) != a.RTag {
@@ -257,6 +266,58 @@ func judge(sh Sheet, ms []markerM, rd Read, recs []outRec) (verdict, error) {
 		}
 	}
 	return v, nil
+}
+
+// mixedClasses labels the arrangement of lone and paired sites of a "mixed" read.
+func mixedClasses(hits []hit, lone []bool, namps int, v *verdict) []string {
+	set := map[string]bool{}
+	for i, h := range hits {
+		if !lone[i] {
+			continue
+		}
+		v.Lone++
+		open := opener(h.Kind) < 0
+		nextPaired := i+1 < len(hits) && !lone[i+1]
+		prevPaired := i > 0 && !lone[i-1]
+		switch {
+		case open && nextPaired && hits[i+1].Marker == h.Marker && hits[i+1].Kind == h.Kind:
+			set["mixed:lone_opener_then_amplicon_same_primer"] = true // hit pattern + + -
+			v.Reopened = true
+		case open && nextPaired:
+			set["mixed:lone_opener_then_amplicon_other_primer"] = true
+			v.Reopened = true
+		case open && prevPaired:
+			set["mixed:amplicon_then_lone_opener"] = true
+		case !open && prevPaired && hits[i-1].Marker == h.Marker && hits[i-1].Kind == h.Kind:
+			set["mixed:amplicon_then_lone_closer_same_primer"] = true // hit pattern + - -
+		case !open && prevPaired:
+			set["mixed:amplicon_then_lone_closer_other_primer"] = true
+		case !open && nextPaired:
+			set["mixed:lone_closer_then_amplicon"] = true
+		}
+		if open {
+			set["mixed:lone_opener"] = true
+		} else {
+			set["mixed:lone_closer"] = true
+		}
+	}
+	switch {
+	case namps == 0:
+		set["mixed:no_amplicon"] = true
+	case namps == 1:
+		set["mixed:one_amplicon"] = true
+	default:
+		set["mixed:several_amplicons"] = true
+	}
+	if v.Lone > 1 {
+		set["mixed:several_lone_sites"] = true
+	}
+	out := make([]string, 0, len(set))
+	for k := range set {
+		out = append(out, k)
+	}
+	sort.Strings(out)
+	return out
 }
 
 // checkReads runs every read of the case, as is and reverse-complemented.
